@@ -201,6 +201,17 @@ def _cont_pred(p):
 
 
 def build_block(case, objs, b, built=None):
+    # C18: "share_block": key - ONE python block object for every occurrence of the key in a session (a user who keeps a
+    # block in a variable and passes it to several combinators)
+    if built is not None and b.get("share_block"):
+        key = b["share_block"]
+        if key not in built.shared_blocks:
+            built.shared_blocks[key] = _build_block(case, objs, b, built)
+        return built.shared_blocks[key]
+    return _build_block(case, objs, b, built)
+
+
+def _build_block(case, objs, b, built=None):
     op = b["op"]
     cons = [build_constraint(case, objs, k, built) for k in b.get("cons", []) if k["c"] != "Continuous"]
     if built is not None and b.get("cont"):
@@ -256,6 +267,7 @@ def build_block(case, objs, b, built=None):
 def build(case):
     built = Built()
     built.cons_lists = {}
+    built.shared_blocks = {}
     built.factors = build_factors(case)
     build_continuous(case, built.factors, built)
     # C18: blocks built earlier in the same session, sharing factor objects and (through "share" keys) constraint objects
